@@ -63,11 +63,11 @@ fn family(i: u64, depth: usize, quick: bool) -> Case {
 }
 
 /// objectives over three variables with different ranges (x decided on the real line, w and y on grid lines)
-fn family_d_size(depth: usize) -> u64 {
+pub fn family_d_size(depth: usize) -> u64 {
     let nctx: u64 = if depth == 0 { 1 } else { CTX_NAMES.len() as u64 };
     crate::props::c01::cores_d().len() as u64 * nctx * 2 * 2 * 2
 }
-fn family_d(i: u64, depth: usize) -> Case {
+pub fn family_d(i: u64, depth: usize) -> Case {
     let cs = crate::props::c01::cores_d();
     let mut d = Digits(i);
     let sense = if d.pick(2) == 0 { Sense::Min } else { Sense::Max };
